@@ -184,7 +184,7 @@ let conc_agrees h blobs (s : st) (a : api) : bool =
 (* concurrency stream, batches run to completion: the observed final directory must be the final
    directory of SOME schedule of the concurrent model; all interleavings of the extracted
    scheduler are explored (memoised on the configuration) *)
-let conc_finals h blobs (s : st) (calls : ccall list) : string list =
+let conc_finals h blobs (s : st) (calls : ccall list) : string list * string list =
   let c0 = start h s calls in
   let n = List.length calls in
   let show (c : conf) =
@@ -194,10 +194,12 @@ let conc_finals h blobs (s : st) (calls : ccall list) : string list =
   let key (c : conf) = (show c, Marshal.to_string (c.ctags, c.cdigs, c.clock, c.cthreads) []) in
   let seen = Hashtbl.create 997 in
   let finals = Hashtbl.create 17 in
+  let every = Hashtbl.create 97 in
   let rec go (c : conf) =
     let k = key c in
     if not (Hashtbl.mem seen k) then begin
       Hashtbl.add seen k ();
+      Hashtbl.replace every (show c) ();
       if List.for_all (fun t -> t.tprog = []) c.cthreads then Hashtbl.replace finals (show c) ()
       else
         for i = 0 to n - 1 do
@@ -207,7 +209,8 @@ let conc_finals h blobs (s : st) (calls : ccall list) : string list =
         done
     end in
   go c0;
-  List.sort compare (Hashtbl.fold (fun k () acc -> k :: acc) finals [])
+  (List.sort compare (Hashtbl.fold (fun k () acc -> k :: acc) finals []),
+   List.sort compare (Hashtbl.fold (fun k () acc -> k :: acc) every []))
 
 let parse_conc blobs (sc : string) : ccall list =
   let parts = String.split_on_char ';' sc in
@@ -299,8 +302,12 @@ let () =
       let (blobs, hist, _) = parse_script sc in
       let h = hfun blobs in
       let s = run_hist h blobs hist in
-      let fs = conc_finals h blobs s (parse_conc blobs sc) in
-      if obs = "wedged" || List.mem obs fs then Printf.printf "%s QREACH yes\n" id
-      else Printf.printf "%s QREACH no: the model's schedules end in {%s}\n" id (String.concat " | " fs)
+      let (fs, every) = conc_finals h blobs s (parse_conc blobs sc) in
+      (* "any:<dir>": the process was killed; <dir> must be the directory of some reachable configuration *)
+      let killed = String.length obs > 4 && String.sub obs 0 4 = "any:" in
+      let obs' = if killed then String.sub obs 4 (String.length obs - 4) else obs in
+      if obs = "wedged" || List.mem obs' (if killed then every else fs) then Printf.printf "%s QREACH yes\n" id
+      else Printf.printf "%s QREACH no: the model's schedules %s {%s}\n" id
+          (if killed then "pass through" else "end in") (String.concat " | " (if killed then every else fs))
     | [] -> ()
     | _ -> Printf.printf "BADLINE %s\n" l)
